@@ -16,8 +16,11 @@ class _PosHandle(dsfs._Handle):
         try:
             return dsfs._Handle.write(self, data)
         finally:
-            # what reached the file: everything unless the injector cut it short (not used by C18/C09)
-            self._rec.ptrace.setdefault(self._p, []).append(("pwrite", pos, data))
+            # what reached the file: everything, unless the fault injector failed the call before it had an effect ('pre': nothing)
+            # or cut it short ('short': the first half) - the handle's position tells
+            reached = max(0, min(len(data), self._f.tell() - pos))
+            if reached or not data:
+                self._rec.ptrace.setdefault(self._p, []).append(("pwrite", pos, data[:reached]))
 
     def truncate(self, size=None):
         if size is None:
@@ -44,6 +47,9 @@ def sx_fops(ops):
     return [[o[0], o[1], o[2]] if o[0] == "pwrite" else [o[0], o[1]] for o in ops]
 
 
+MASKED_DTYPES = ["Int8", "Int16", "Int32", "Int64", "UInt8", "UInt16", "UInt32", "UInt64", "boolean", "string"]
+
+
 def to_df(frame):
     """[[label, dtype, values], ...] -> DataFrame (labels may repeat / be non-text)."""
     import numpy as np
@@ -52,6 +58,9 @@ def to_df(frame):
     for i, (label, dt, vals) in enumerate(frame):
         if dt == "object":
             cols[i] = pd.Series(list(vals), dtype=object)
+        elif dt in MASKED_DTYPES:
+            # pandas extension dtypes that can hold a missing value (None in the data = <NA>)
+            cols[i] = pd.Series(pd.array(list(vals), dtype=dt))
         elif dt == "period":
             cols[i] = pd.Series(pd.period_range("2020-01", periods=len(vals), freq="M"))
         elif dt == "interval":
